@@ -1,7 +1,7 @@
 #!/usr/bin/env python3
 """Prints the markdown table of benign changes (DESIGN.md 7.10) from /verif/seeded/benign-*/meta.json."""
 import json, glob, os
-print("| id | change that keeps the property (one line) | builds + suite | quick | thorough (300 s, seed 5) |")
+print("| id | change that keeps the property (one line) | builds + suite | quick | thorough (reduced budget) |")
 print("|---|---|---|---|---|")
 for f in sorted(glob.glob("/verif/seeded/benign-*/meta.json")):
     m = json.load(open(f))
@@ -9,4 +9,4 @@ for f in sorted(glob.glob("/verif/seeded/benign-*/meta.json")):
     ok = m.get("patch_applies") and m.get("builds") and m.get("suite_passes_with_change")
     q = "silent (exit 0)" if m.get("check_exit") == 0 else "exit %s" % m.get("check_exit")
     t = "-" if "thorough_check_exit" not in m else ("silent (exit 0)" if m["thorough_check_exit"] == 0 else "exit %s" % m["thorough_check_exit"])
-    print("| %s | %s | %s | %s | %s %s |" % (sid, (m.get("change") or "")[:230].replace("|", "/").replace("\n", " "), "yes" if ok else "NO", q, t, m.get("note", "")))
+    print("| %s | %s | %s | %s | %s %s |" % (sid, (m.get("change") or "")[:200].replace("|", "/").replace("\n", " "), "yes" if ok else "NO", q, t, m.get("note", "")))
